@@ -750,6 +750,26 @@ namespace
                   { mism("finite", "row [" + fmt(c[0]) + "," + fmt(c[1]) + "," + fmt(c[2]) + "," + fmt(c[3]) + "]: non-finite value returned", static_cast<long>(i), fmt(out[i]), "finite"); break; }
               continue;
             }
+          // "also2d": {x, z, rel, abs}: the same world asked through the 2D interface at (cell x, cell z) must answer the same
+          if (!only_finite && s.HasMember("also2d") && dim == 3)
+            {
+              const Value &a2 = s["also2d"];
+              const double x2 = c[a2["x"].GetUint()], z2 = c[a2["z"].GetUint()];
+              const double rel2 = eval(a2["rel"]), abs2 = eval(a2["abs"]);
+              ++stats.queries; ++stats.checks; ++stats.by_check["section-2d"];
+              try
+                {
+                  const std::vector<double> o2 = w.properties(std::array<double,2> {{x2, z2}}, c[3], props);
+                  bool same = o2.size() == out.size();
+                  size_t where = 0;
+                  for (size_t i = 0; same && i < out.size(); ++i)
+                    if (!(std::fabs(out[i] - o2[i]) <= abs2 + rel2 * std::max(std::fabs(out[i]), std::fabs(o2[i])))) { same = false; where = i; }
+                  if (!same)
+                    mism("section-2d", "row [" + fmt(c[0]) + "," + fmt(c[1]) + "," + fmt(c[2]) + "," + fmt(c[3]) + "]: the 2D interface at (" + fmt(x2) + "," + fmt(z2) + ") answers differently",
+                         static_cast<long>(where), where < o2.size() ? fmt(o2[where]) : "", where < out.size() ? fmt(out[where]) : "");
+                }
+              catch (const std::exception &e) { mism("section-2d", std::string("the 3D query is answered, the 2D query threw: ") + e.what()); }
+            }
           if (s.HasMember("h2"))     // the same query on a twin world must give bit-identical values
             {
               Handle &H2 = handle(s["h2"].GetInt());
